@@ -208,7 +208,8 @@ def run(ctx: Ctx):
         "A bounded subset is repeated with the pyhap / pyhap.tlv logger at DEBUG (results must not depend on logging). "
         "Histories: on a freshly loaded codec, refused calls (odd argument count, non-bytes value or tag after a good item, "
         "undecodable input) interleaved with well-formed encodes / decodes; every well-formed call must give the TLV8 result "
-        "of its own arguments whatever came before (always non-trivial)."
+        "of its own arguments whatever came before (always non-trivial). Scale: single values of 64 KiB .. 1 MiB (3 MB thorough), "
+        "reference codec only."
     )
     enc_cases = gen_encode_cases(ctx)
     dec_cases = gen_decode_cases(ctx)
@@ -256,6 +257,7 @@ def run(ctx: Ctx):
                     st.hit("op", "decode@" + cfg)
     run_camera_usage(ctx)
     run_histories(ctx)
+    run_scale(ctx, tlv)
     model = run_model_parallel("C07", lines)
     for ln, m, i in zip(lines, model, impl):
         st.traces_validated += 1
@@ -523,6 +525,34 @@ def run_histories(ctx: Ctx):
     st.sample({"history": [o.get("bad") or ("encode" if "encode" in o else "decode") for o in hists[1]], "results": [_short(r) for r in exec_history(hists[1])]})
 
 
+def run_scale(ctx: Ctx, tlv):
+    """Value lengths far beyond anything a pairing message carries (the property quantifies over every value length):
+    judged by the reference codec only; the two 64 KiB cases also go to the model."""
+    st = ctx.stats
+    rng = ctx.rng
+    big = [65535, 65536, 254999, 255000, 262144 + 17, 1048576 + 1]
+    if not ctx.quick:
+        big += [rng.randrange(70000, 3000000) for _ in range(6)]
+    for n in big:
+        it = [(rng.choice([1, 5, 9]), _val(rng, n)), (2, b"\x01")]
+        try:
+            enc = impl_encode(tlv, it)
+        except BaseException as ex:  # noqa: BLE001  (RecursionError, MemoryError: still an answer the property forbids)
+            if isinstance(ex, (KeyboardInterrupt, SystemExit, Timeout)):
+                raise
+            ctx.fail(
+                "C07:encode-raises-on-wellformed-items",
+                f"tlv.encode of value lengths {[len(v) for _, v in it]} raises {type(ex).__name__} instead of returning the TLV8 byte string",
+                _rep({"kind": "encode-scale", "lengths": [len(v) for _, v in it], "tags": [t for t, _ in it], "start": it[0][1][0] if it[0][1] else 0}),
+                size=n,
+            )
+            st.hit("outcome", "scale-raises")
+            continue
+        oracle_encode(ctx, tlv, it, enc)
+        st.case(["scale", n], True)
+        st.hit("op", "encode-scale")
+
+
 def _short(x):
     s = str(x)
     return s if len(s) < 160 else s[:160] + f"...<{len(s)} chars>"
@@ -564,7 +594,16 @@ def replay(ctx: Ctx, r):
     with logging_cfg(r.get("logging")):
         if r.get("logging"):
             print("logging configuration:", r["logging"])
-        if r["kind"] == "history":
+        if r["kind"] == "encode-scale":
+            items = [(t, bytes((r["start"] + i * 7) & 0xFF for i in range(n))) for t, n in zip(r["tags"], r["lengths"])]
+            try:
+                enc = impl_encode(tlv, items)
+                oracle_encode(ctx, tlv, items, enc)
+                print("encode lengths", r["lengths"], "->", len(enc), "bytes")
+            except Exception as ex:  # noqa: BLE001
+                print("encode lengths", r["lengths"], "raises", type(ex).__name__)
+                ctx.fail("C07:encode-raises-on-wellformed-items", f"raises {type(ex).__name__}", r)
+        elif r["kind"] == "history":
             res = exec_history(r["ops"])
             for o, x in zip(r["ops"], res):
                 print(" ", o.get("bad") or ("encode" if "encode" in o else "decode"), "->", _short(x))
